@@ -201,6 +201,36 @@ def extract(src):
     if kw.get("commit_consumer_id") != "self.member_id" or kw.get("commit_generation_id") != "self.generation_id":
         raise KeyError("on_join_complete: Consumer(commit_consumer_id=self.member_id, commit_generation_id=self.generation_id) not found")
     offset_committed = assigned(src.tree("common.py"), "OFFSET_COMMITTED")
+    # ... and the Consumer keeps that identity: `commit_consumer_id` / `commit_generation_id` are assigned only
+    # in `Consumer.__init__` (from the constructor arguments) and `_send_commit_request` sends exactly them
+    # (the source facts behind the composition theorem C16_commit_fencing)
+    ctree = src.tree("consumer.py")
+    ccls = [n for n in ctree.body if isinstance(n, ast.ClassDef) and n.name == "Consumer"]
+    if len(ccls) != 1:
+        raise KeyError("consumer.py: class Consumer not found")
+    for attr in ("commit_consumer_id", "commit_generation_id"):
+        sites = []
+        for fn in ast.walk(ccls[0]):
+            if not isinstance(fn, (ast.FunctionDef, ast.AsyncFunctionDef)):
+                continue
+            for n in ast.walk(fn):
+                targets = n.targets if isinstance(n, ast.Assign) else [n.target] if isinstance(n, (ast.AugAssign, ast.AnnAssign)) else []
+                for t in targets:
+                    for u in ast.walk(t):
+                        if isinstance(u, ast.Attribute) and u.attr == attr:
+                            sites.append((fn.name, ast.unparse(n)))
+                if isinstance(n, ast.Call) and ast.unparse(n.func) in ("setattr", "object.__setattr__") and attr in ast.unparse(n):
+                    sites.append((fn.name, ast.unparse(n)))
+        if sites != [("__init__", "self.%s = %s" % (attr, attr))]:
+            raise KeyError("consumer.py: %s is assigned at %r, expected only `self.%s = %s` in __init__" % (attr, sites, attr, attr))
+    scr = src.func("consumer.py", "Consumer._send_commit_request")
+    sent = None
+    for n in ast.walk(scr):
+        if isinstance(n, ast.Call) and ast.unparse(n.func) == "self.client.send_offset_commit_request":
+            sent = {k.arg: ast.unparse(k.value) for k in n.keywords if k.arg}
+    if sent is None or sent.get("group_generation_id") != "self.commit_generation_id" or sent.get("consumer_id") != "self.commit_consumer_id":
+        raise KeyError("_send_commit_request: send_offset_commit_request(group_generation_id=self.commit_generation_id, "
+                       "consumer_id=self.commit_consumer_id) not found: %r" % (sent,))
 
     hier = Hierarchy(src.tree("common.py"))
     gtree = src.tree("_group.py")
@@ -311,4 +341,5 @@ def extract(src):
         ("groupJoinMinTimeout", float(min_timeout)),
         ("groupConsumerStartOffset", "Int", "(%d)" % offset_committed),
         ("groupMsPerSecond", 1000),
+        ("groupCommitIdentityFixed", "Bool", "true"),
     ] + lines
